@@ -25,6 +25,7 @@ func init() {
 
 func runC13(c *Ctx) {
 	p := c.P
+	sharedDigestRule(c, p, "R2", "transports/obfs3", "common/uniformdh")
 	spec, err := loadSpec("obfs3.json")
 	if err != nil {
 		c.Obl("R0", "spec", "spec table loads").Undecide("%v", err)
@@ -44,7 +45,13 @@ func runC13(c *Ctx) {
 		}
 	}
 	if fn := p.Func("transports/obfs3:(*obfs3Conn).findPeerMagic"); fn != nil {
-		n := shortReadRule(c, "R5", p, cio, map[*ssa.Function]bool{fn: true}, false)
+		// the scanner's raw read is the only one: the handshake reads its fixed-size fields with io.ReadFull
+		set := map[*ssa.Function]bool{fn: true}
+		if hs := p.Func("transports/obfs3:(*obfs3Conn).handshake"); hs != nil {
+			set[hs] = true
+			c.Touch(p.FuncKey(hs))
+		}
+		n := shortReadRule(c, "R5", p, cio, set, false)
 		if n != 1 {
 			c.Obl("R5", "findPeerMagic#read", "the magic scan reads the connection").Undecide("%d raw reads", n)
 		}
